@@ -47,6 +47,11 @@ def run(ctx):
     import athlib
     from athlib import codes
     from athlib.utils import field_event_record
+    from athlib.utils import FIELD_EVENT_RECORDS_BY_GENDER as RECS
+    def record_of(ev, g_):
+        # the property's reading: the record of the athlete's gender (any letter case), else the better of the two
+        t = RECS.get(g_.lower()) or RECS['all']
+        return t.get(ev.upper())
     rng = ctx.rng
     lang = CC.enumerate_codes(ctx, trees, alpha, codes, per_alt=2, extra=1500)
     lang = [s for s in lang if s.strip() == s and s and s.isascii()]
@@ -85,7 +90,7 @@ def run(ctx):
             stats['field'] += 1
             if not re.match(r'^\d+\.\d\d$', r): fail('a two-decimal number', r, 'field result malformed')
             else:
-                rec = field_event_record(ev, g_)
+                rec = record_of(ev, g_)
                 if rec and float(r) > rec * 1.2 + 0.005: fail('not absurdly beyond the record %.2f' % rec, r, 'field result beyond the record window')
         elif ev.upper() in codes.MULTI_EVENTS:
             stats['multi'] += 1
@@ -120,6 +125,28 @@ def run(ctx):
             elif timed and dist and dist <= 200 and ':' in r and '.' not in r: why += ' (m:ss for a sprint is re-read as seconds.hundredths)'
             elif not timed and re.match(r'^\d{3,}\.\d\d$', r): why += ' (field result of 100 m or more: PAT_PERF admits two integer digits)'
             fail('validating %r again returns it unchanged' % r, r2 if st2 == 'ok' else st2, why)
+    # ---- the record window for every record event x gender spelling, marks around 1.2 x the record
+    nwin = 0
+    for ev in sorted(RECS['m']):
+        for g_ in ['m', 'f', 'M', 'F', 'all', 'ALL', 'x']:
+            rec = record_of(ev, g_)
+            lim = int(round(rec * 120))            # hundredths
+            for c in list(range(lim - 6, lim + 7)) + [int(rec * 100), lim + 50, lim + 400]:
+                t = '%d.%02d' % (c // 100, c % 100)
+                if c // 100 > 99: continue           # three-digit metres: PAT_PERF (known finding)
+                st, r = chk(ev, t, g_, None)
+                nwin += 1
+                want_ok = c * 5 <= int(round(rec * 100)) * 6
+                if c in (lim, lim - 1, lim + 1): continue      # record * 1.2 is a float product: do not judge the boundary itself
+                if (st == 'ok') != want_ok:
+                    ctx.fail('athlib.check_performance_for_discipline', [ev, t, g_, None],
+                             ('accepted' if want_ok else 'refused') + ' (record %.2f for %r, window 1.2 x)' % (rec, g_), r if st == 'ok' else st,
+                             note='field record window',
+                             replay_py='class EK(Exception): pass\ntry:\n    result = athlib.check_performance_for_discipline(%r, %r, gender=%r, errorKlass=EK)\nexcept EK:\n    result = "refused (errorKlass)"' % (ev, t, g_))
+                if i % 1 == 0:
+                    lines.append('pf\tcheck\t%s\t%s\t%s' % (CC.cps(ev), CC.cps(t), CC.cps(g_)))
+                    expect.append(('ok ' + CC.cps(r)).strip() if st == 'ok' else 'refused')
+    ctx.count(nwin, 'record_window_calls')
     ctx.count(n, 'validation_calls')
     ctx.stats.update(stats)
     got = vlib.driver_parallel(lines)
